@@ -246,6 +246,8 @@ def run(pid, tier, seed, replay=None):
             c = {k: (str(v) if k in ("cls", "route") else int(v)) for k, v in st["case"].items()}
             cases.append((c, {k: (v if isinstance(v, bool) else (str(v) if isinstance(v, (str, tlaval.Sym)) else (v if isinstance(v, dict) else int(v))))
                               for k, v in st["expect"].items()}))
+    if not thorough:    # quick: the assignment routes on two wave numbers and two units only
+        cases = [(c, e) for c, e in cases if c["route"] == "direct" or (c["j"] in (1, 4) and c["e"] >= 0)]
     rng.shuffle(cases)
     variants = ["plain", "rescaled", "lower-truncation"]
     import multiprocessing as mp
